@@ -3,6 +3,126 @@
 use super::*;
 use crate::verif_common::*;
 
+fn track_ok(t: &mut FuelTracker, unit: bool) -> bool {
+    let zero_i = Instruction::PushWith;
+    let unit_i = Instruction::Swap;
+    let r = t.track(if unit { &unit_i } else { &zero_i });
+    let ok = r.is_ok();
+    core::mem::forget(r);
+    ok
+}
+
+// @verif props=C13 tier=quick cap=400 group=core fns=FuelTracker::{new,track,remaining,consumed}
+/// For EVERY budget b in u64 and every sequence of <=5 zero-/unit-cost instructions: the outcome of each
+/// step is a threshold function of b (b > cost so far => Ok, b < cost => out of fuel, once out of fuel always
+/// out of fuel), and while successful consumed() == cost so far and consumed() + remaining() == b.
+#[kani::proof]
+#[kani::unwind(7)]
+fn c13_fuel_threshold_and_levels() {
+    let b: u64 = kani::any();
+    let mut t = FuelTracker::new(b);
+    assert!(t.consumed() == 0 && t.remaining() == b);
+    let mut cost: u128 = 0;
+    let mut failed = false;
+    let mut i = 0;
+    while i < 5 {
+        let unit: bool = kani::any();
+        let ok = track_ok(&mut t, unit);
+        if unit {
+            cost += 1;
+        }
+        if !failed {
+            if !unit {
+                assert!(ok);
+            } else {
+                if (b as u128) > cost {
+                    assert!(ok);
+                }
+                if (b as u128) < cost {
+                    assert!(!ok);
+                }
+            }
+            if ok {
+                assert!(t.consumed() as u128 == cost);
+                assert!(t.consumed() as u128 + t.remaining() as u128 == b as u128);
+            } else {
+                failed = true;
+            }
+        } else if unit {
+            assert!(!ok);
+        }
+        i += 1;
+    }
+    kani::cover!(failed && b > 2);
+    kani::cover!(!failed && cost == 5);
+    kani::cover!(b > (1u64 << 63) && !failed && cost > 0);
+}
+
+// @verif props=C13 tier=quick cap=400 group=core fns=FuelTracker::{new,track}
+/// Monotonicity in the budget: for every pair b1 <= b2 in u64 and the same <=4-instruction sequence, a step that
+/// succeeds under b1 succeeds under b2 (so each render has ONE threshold).
+#[kani::proof]
+#[kani::unwind(6)]
+fn c13_fuel_monotone_in_budget() {
+    let b1: u64 = kani::any();
+    let b2: u64 = kani::any();
+    kani::assume(b1 <= b2);
+    let mut t1 = FuelTracker::new(b1);
+    let mut t2 = FuelTracker::new(b2);
+    let mut i = 0;
+    let mut diverged = false;
+    while i < 4 {
+        let unit: bool = kani::any();
+        let ok1 = track_ok(&mut t1, unit);
+        let ok2 = track_ok(&mut t2, unit);
+        if ok1 {
+            assert!(ok2);
+        }
+        if ok1 != ok2 {
+            diverged = true;
+        }
+        i += 1;
+    }
+    kani::cover!(diverged);
+    kani::cover!(b2 == u64::MAX);
+}
+
+// @verif props=C13 tier=quick cap=200 group=core fns=fuel_for_instruction
+/// The per-instruction charge is 0 or 1 for representatives of every payload shape of Instruction.
+#[kani::proof]
+#[kani::unwind(3)]
+fn c13_fuel_cost_is_zero_or_one() {
+    let n: u32 = kani::any();
+    let instrs = [
+        Instruction::PushWith,
+        Instruction::PopFrame,
+        Instruction::PopLoopFrame,
+        Instruction::DupTop,
+        Instruction::DiscardTop,
+        Instruction::PushAutoEscape,
+        Instruction::PopAutoEscape,
+        Instruction::PushDidNotIterate,
+        Instruction::PushLoop(n as u8),
+        Instruction::Swap,
+        Instruction::Emit,
+        Instruction::Jump(n),
+        Instruction::JumpIfFalse(n),
+        Instruction::Iterate(n),
+        Instruction::Lookup("x"),
+        Instruction::StoreLocal("x"),
+        Instruction::EndCapture,
+        Instruction::Add,
+        Instruction::Not,
+    ];
+    let k: usize = kani::any();
+    kani::assume(k < instrs.len());
+    let c = fuel_for_instruction(&instrs[k]);
+    assert!(c == 0 || c == 1);
+    kani::cover!(c == 0);
+    kani::cover!(c == 1);
+    core::mem::forget(instrs);
+}
+
 #[cfg(test)]
 mod playback {
     use super::*;
